@@ -31,8 +31,8 @@ from sim.env import SimEnv, UNIT
 
 ID = "C12"
 LEVEL = "exploration"
-QUICK_N = 30000
-THOROUGH_N = 900000
+QUICK_N = 20000
+THOROUGH_N = 1000000
 CHUNK = 400
 RULE = ("gen(seed): receive window, scripted peer consumption steps then drain, send_cap/delay/"
         "defer tapes, max_write_buffer_size knob (often an exact-fit boundary), list of writes "
@@ -385,9 +385,11 @@ def run(scn, full_log=False):
     outcome = []
     seen_keys = set()
 
+    over = []  # set once the verdict is final: teardown cancellations are not observations
+
     def bad(rule, msg, key=None):
         key = key or rule
-        if key in seen_keys:
+        if key in seen_keys or over:
             return
         seen_keys.add(key)
         viol.append({"rule": rule, "key": key, "msg": msg})
@@ -459,6 +461,14 @@ def run(scn, full_log=False):
             def send(data):
                 offered = len(data)
                 before = sock.sent
+                if offered == 0:
+                    # a correct stream never offers an empty buffer; a stream that does so
+                    # while holding bytes spins on WRITE readiness for ever
+                    st["empty_sends"] = st.get("empty_sends", 0) + 1
+                    if st["empty_sends"] == 8:
+                        bad("write.empty_send_spin", "send() called 8 times with an empty buffer "
+                            f"({st['acc']} of {len(expected)} bytes accepted)")
+                        loop.max_iters = min(loop.max_iters, loop.iterations + 8)
                 try:
                     n = orig_send(data)
                 finally:
@@ -644,5 +654,6 @@ def run(scn, full_log=False):
         perturbed = (f.get("partial_send", 0) + f.get("zero_window_stall", 0)
                      + f.get("send_eagain", 0)) > 0
         nontrivial = st["accepted_writes"] >= 2 and perturbed and st["pending_on_return"] >= 1
+        over.append(1)
         return {"violations": viol, "nontrivial": nontrivial, "stats": stats,
                 "log_head": env.log.head, "log_full": env.log.full, "outcome": outcome}
